@@ -85,6 +85,9 @@ REQUIRED_RULES = [
      "integer arithmetic to them (a float numInGroup makes the generated header ill-formed)"),
     ("enum-values-unique", "sbe_schema_validator::validate_valid_values", ["add_or_throw", "count", "find", "insert", "emplace", "try_emplace", "contains"],
      "validValue *values* must be unique: tag_invoke emits one `case` per validValue (duplicate case value does not compile)"),
+    ("block-length-fits-header-type", "sbe_schema_validator::validate_block_length", ["value_fits_into_type", "validate_block_length_representation"],
+     "the final block length of a message / group must be representable by the header's blockLength type: the generated "
+     "filler brace-initialises that type with the compiled constant (300-byte entries with a uint8 blockLength do not compile)"),
     ("offset-plus-size-bounded", "sbe_schema_validator::validate_field_offset", ["max", "add_overflow", "checked_add"],
      "offset + size is computed in uint64 without an overflow / upper-bound test (offset=18446744073709551615 wraps and is accepted)"),
 ]
